@@ -12,7 +12,7 @@ HYPOTHESES = ["ModelBilinearCode (C01_ProtoModel / Lemmas/ModelPairing): the pai
 NOT_YET_PROVED = ["bilinearity of the model pairing (sampled on model and implementation by C05's predicates)"]
 ASSUMPTIONS = []
 nontrivial = nontrivial_default
-CHUNK = 4
+CHUNK = 5
 
 
 def tk(sk):
@@ -21,6 +21,11 @@ def tk(sk):
 
 def cases(rng, tier):
     cs = []
+    from props.blsutil import pk_of
+    k0 = rng.randrange(2, O.BLS_R - 1)
+    C0 = suite_cls("basic")
+    for k in (k0, O.BLS_R - k0, k0, 1, O.BLS_R - 1):
+        cs.append(Case("bls.Verify", ["basic", tb(pk_of(k)), tb(b"m"), tb(C0.Sign(k, b"m"))], tags=("complementary-keys",)))
     ks, ms = good_keys(rng, tier), msgs(rng, tier)
     for sk in ks:
         cs.append(Case("bls.SkToPk", [tk(sk)]))
@@ -69,6 +74,18 @@ def pop_history_pred(ska, skb):
     if not POP.PopVerify(pkb, POP.PopProve(skb)):
         bad.append("honest proof rejected after Verify on the key bytes")
     return (not bad, f"POP suite history: {bad}")
+
+
+def complementary_keys_pred(sk, s):
+    """keys sk and r - sk (public keys PK and -PK: same x, other sign bit) used in one interpreter, both orders"""
+    C = suite_cls(s)
+    bad = []
+    for a, b in ((sk, O.BLS_R - sk), (O.BLS_R - sk + 1, sk - 1)):
+        for k in (a, b, a):
+            pk = C.SkToPk(k)
+            if not C.Verify(pk, b"m", C.Sign(k, b"m")):
+                bad.append(f"honest signature of key {'sk' if k == a else 'r-sk'} rejected")
+    return (not bad, f"complementary keys in one process, suite {s}: {bad[:3]}")
 
 
 def numeric_key_pred():
@@ -136,6 +153,8 @@ def predicates(rng, tier, only=None):
     for sk in BAD_KEYS:
         ps.append(Pred("key-rejected", reject_pred, (sk,)))
     ps.append(Pred("key-rejected", numeric_key_pred, ()))
+    ps.append(Pred("sign-verify", complementary_keys_pred, (rng.randrange(2, O.BLS_R - 1), rng.choice(SUITES))))
+    ps.append(Pred("sign-verify", complementary_keys_pred, (2, "pop")))
     ps.append(Pred("pop-history", pop_history_pred, (rng.randrange(1, O.BLS_R), rng.randrange(1, O.BLS_R))))
     for _ in range(6 if tier == "quick" else 60):
         ps.append(Pred("keygen-range", keygen_pred, (bytes(rng.randrange(256) for _ in range(rng.randrange(0, 129))), bytes(rng.randrange(256) for _ in range(rng.randrange(0, 65))))))
